@@ -72,6 +72,26 @@ func ifConds(rel, fn string) []string {
 	return out
 }
 
+// ifCondsTop is ifConds without descending into function literals (closures).
+func ifCondsTop(rel, fn string) []string {
+	fd := funcDecl(rel, fn)
+	f := load(rel)
+	if fd == nil || f == nil {
+		return nil
+	}
+	var out []string
+	ast.Inspect(fd.Body, func(n ast.Node) bool {
+		if _, ok := n.(*ast.FuncLit); ok {
+			return false
+		}
+		if is, ok := n.(*ast.IfStmt); ok {
+			out = append(out, exprStr(f.fset, is.Cond))
+		}
+		return true
+	})
+	return out
+}
+
 func init() {
 	reg("Rule", func(g *gen) {
 		const rel = "client/rule.go"
